@@ -25,6 +25,7 @@ const ID = "C13"
 //	op      a table-building operation
 //	reg     register a recording callback: Owner kind, When, Target; Ref/Col choose the owner among what exists
 //	render  one render pass (Via: invoke | csv)
+//	dense     N cell callbacks on the table plus one on each of the first three columns, all in the slot When
 //	seedcell  a stand-alone cell gets a render callback registered on it and is then added (by value) to
 //	          the rows Ref and Col: both copies carry the registration; later registrations on one copy
 //	          must not leak to the other
@@ -517,6 +518,33 @@ func CheckCase(c Case) *ev.Violation {
 					if a == b {
 						break
 					}
+				}
+			}
+		case "dense":
+			// one slot gets crowded: N cell callbacks on the table and one on each of the first columns, all at the same time
+			n := st.N
+			if n < 1 {
+				n = 3
+			}
+			when := st.When % 4
+			mkreg := func(ownerKind string, col int, owner tabular.PropertyOwner) *ev.Violation {
+				w.nextID++
+				r := &reg{id: w.nextID, owner: ownerKind, col: col, when: when, target: tCell}
+				if err := t.RegisterPropertyCallback(owner, whens[when], tabular.CB_ON_CELL, &recorder{r: r, w: w}); err != nil {
+					return ev.V("step %d: registering %s failed: %v", step, w.describe(r), err)
+				}
+				w.regs = append(w.regs, r)
+				byID[r.id] = r
+				return nil
+			}
+			for k := 0; k < n; k++ {
+				if v := mkreg("table", 0, t); v != nil {
+					return v
+				}
+			}
+			for col := 1; col <= t.NColumns() && col <= 3; col++ {
+				if v := mkreg("column", col, t.Column(col)); v != nil {
+					return v
 				}
 			}
 		case "reg":
